@@ -1,5 +1,7 @@
 import PromModel.Tsdb.HistLayout
 import PromProofs.HistLayout
+import PromProofs.HistSide
+import PromProofs.HistIdxBoth2
 /-
   C11 — Native histograms are stored and read back faithfully (layout level).
   Property theorems only; the model is PromModel/Tsdb/HistLayout.lean, lemmas are in
@@ -63,6 +65,19 @@ def insert_preserves_buckets_full : Prop :=
     expandCounter float a b aB bB = .ok (some (f, bw)) → bw = [] →
     insert (!float) aB (countSpans b) f = .ok out → bucketMap float b out = bucketMap float a aB
 
+/-- **insert_preserves_buckets (index level, full statement).**  Forward recoding with the inserts of
+    `expandInt/FloatSpansAndBuckets` leaves the bucket map (index ↦ populated absolute value) unchanged,
+    for ALL span layouts and bucket slices, both flavours (whenever the Go code does not panic). -/
+theorem insert_preserves_buckets : insert_preserves_buckets_full := by
+  intro float a b aB bB f bw out he hb hi
+  obtain ⟨plan, _, hla, _⟩ := expandCounter_plan float a b aB bB f bw he
+  have hU : idxs b = mergeU (idxs a) (idxs b) := (plan.merge_of_b_nil hb).symm
+  exact (insert_bucketMap float a b (idxs b) hU aB hla f plan.fpos plan.f out hi).2.1
+
+/-- a real forward recoding step: chunk layout {0}, histogram layout {-1,0,2} (the inserts are what
+    `expandCounter false [⟨0, 1⟩] [⟨-1, 2⟩, ⟨1, 1⟩] [5] [1, 5, -4]` returns) -/
+example : insert true [5] 3 [⟨0, 1, -1⟩, ⟨1, 1, 2⟩] = .ok [0, 5, -5] := by rfl
+
 /-- **expand_sound (partial).**  When `expandIntSpansAndBuckets`/`expandFloatSpansAndBuckets` say "ok",
     every bucket of the chunk's last sample is either present in the new histogram with a count that
     is not smaller, or it is empty (then a backward insert covers it): no populated bucket disappears
@@ -79,6 +94,17 @@ def expand_sound_full : Prop :=
     let (f, bw, m) := expandBoth a b
     (∀ i, i ∈ idxs m ↔ i ∈ idxs a ∨ i ∈ idxs b) ∧ (idxs m).Pairwise (· < ·) ∧
     (f.map (·.pos)).Pairwise (· < ·) ∧ (bw.map (·.pos)).Pairwise (· < ·)
+
+/-- **expand_sound (full statement).**  `expandSpansBothWays`: the merged spans enumerate exactly the union of
+    both layouts in strictly increasing order, and both insert lists have strictly increasing positions. -/
+theorem expand_sound : expand_sound_full := by
+  intro a b ha hb
+  have hp := expandBoth_plan a b
+  have hs := expandBoth_pos_sorted a b
+  have h2 : idxs (bothGo (idxs a) (idxs b) BW.init).m.spans = mergeU (idxs a) (idxs b) := hp.2
+  refine ⟨?_, ?_, hs.1, hs.2⟩
+  · intro i; rw [h2]; exact mem_mergeU_iff _ _ i
+  · rw [h2]; exact mergeU_sorted _ _ ha hb
 
 /-- `append_roundtrip`, full statement (not proved beyond the first sample of every chunk — the two
     theorems above; the judge evaluates exactly this predicate on what the real chunks, head and blocks
